@@ -45,6 +45,8 @@ DEFAULT_PROFILE = dict(
     p_extern_base=0.1,       # a `#[base]` member of an extern type (also in first position, in front of a polymorphic base)
     p_big_index=0.002,       # a virtual function with an #[index] a few thousand slots further on
     p_orphan_mod=0.08,       # a nested module (dir/name.pyxis) without a module file for the directory
+    p_vft_block_doc=0.15,    # a doc comment on the vftable block (beside its #[size])
+    p_dotted_dirs=0.0,       # two sibling directories whose names differ after a dot (v1.2/x.pyxis, v1.3/x.pyxis), self-contained
     p_big_discr=0.0,         # an enum discriminant literal in 2^63 .. 2^64-1 (pyxis reads literals as isize: a parse error today)
     # -- options of the execution oracle (tools/exec_oracle.py); off by default, and when off no random draw changes --
     addr_pool=None,          # (base, stride, count): every #[address] of an impl function, #[singleton] and extern value
@@ -567,6 +569,10 @@ class Gen:
             size_attr = "    #[size(%s)]\n" % int_lit(rng, total, self.chance("p_int_forms"))
             while len(slots) < total:
                 slots.append(None)
+        if rng.random() < self.p.get("p_vft_block_doc", 0.0):
+            # a doc comment on the block itself (never emitted), in front of or behind its #[size]
+            dline = "    /// the table %d\n" % rng.randint(0, 99)
+            size_attr = dline + size_attr if rng.random() < 0.6 else size_attr + dline
         block = size_attr + "    vftable {\n" + ";\n".join("    " + x.replace("\n", "\n    ") for x in texts) + \
             (";" if texts and rng.random() < 0.7 else "") + "\n    }"
         return block, slots
@@ -973,6 +979,18 @@ class Gen:
             text = head + body + backs + "\n".join(items) + "\n"
             files["/".join(m) + ".pyxis"] = text
             self.expect.setdefault("modules", {})["/".join(m)] = dict(doc=mdoc, pro=pro, epi=epi, pro_seq=pro_seq, epi_seq=epi_seq)
+        if rng.random() < self.p.get("p_dotted_dirs", 0.0):
+            # directory names are module path segments as they are: `v1.2` and `v1.3` are different modules
+            stem, leaf = self.fresh("v") , self.fresh("n")
+            for k_, tn_ in ((2, "Circle"), (3, "Square")):
+                rel = "%s.%d/%s" % (stem, k_, leaf)
+                tname = tn_ + str(self.uid)
+                files[rel + ".pyxis"] = "pub type %s { pub r: f32 }\n" % tname
+                self.expect["modules"][rel] = dict(doc=[], pro=None, epi=None, pro_seq=None, epi_seq=None)
+                self.expect["types"]["%s.%d::%s::%s" % (stem, k_, leaf, tname)] = dict(
+                    fields=[("r", 0, 4, "f32", False, False)], size=4, align=4, packed=False, own_vftable=False, has_vftable=False,
+                    slots=[], slot_descs=[], declared_vft=False, copyable=False, cloneable=False, defaultable=False, singleton=None,
+                    pub=True, doc=[], impls=[], bases=[], base_fields=[], field_meta={"r": (True, [])})
         return files, self.expect
 
 
